@@ -26,4 +26,18 @@ theorem emitter_accounts_for_every_event (cfg : OtlpAll.Cfg) (net0 : Signal → 
   let a := OtlpAll.acct_reachable cfg net0 s h
   ⟨a.all, fun g => (OtlpAll.reachable_sig cfg net0 s h g).2, a.count⟩
 
+/-- non-vacuity: traces only; a span (event 1) is accepted by the traces channel, two log-shaped events are discarded and
+    counted -/
+private def spanShape : Shape := { kind := .span, extent := .range, hasName := false, value := .missing, agg := .missing }
+private def logShape : Shape := { kind := .none, extent := .point, hasName := false, value := .missing, agg := .missing }
+private def acfg : OtlpAll.Cfg :=
+  { logs := false, traces := true, metrics := false,
+    pipe := fun _ => { ch := Batcher.Cfg.real 10, tr := .http, limit := 100, size := fun _ => 1 },
+    shape := fun x => if x = 1 then spanShape else logShape }
+private def anet : Signal → Net := fun _ => { dead := false, script := [], slot := false, conns := 0, log := [] }
+
+example : ((Sched.run (OtlpAll.step acfg) (OtlpAll.init anet) [.emit 0, .emit 1, .emit 2]).map fun s =>
+    (s.emitted, s.discarded, s.closedDrop, s.traces.ch.accepted, s.logs.ch.accepted)) =
+    some ([0, 1, 2], [0, 2], [], [1], []) := by rfl
+
 end EmitModel.C14
